@@ -1008,10 +1008,41 @@ class LaserScene(SceneBase):
     def _l(self):
         return self.live.laser
 
+    def _lpool(self, what):
+        # profile / spectrum objects this laser used earlier, each with the settings it had when it was replaced
+        if not hasattr(self, "_lpools"):
+            self._lpools = {"profile": [], "spectrum": []}
+        return self._lpools[what]
+
     def do_l_profile_swap(self, p):
+        self._lpool("profile").append((self._l().laser_profile, copy.deepcopy(self.rec["laser"]["profile"])))
+        del self._lpool("profile")[:-3]
         self.rec["laser"]["profile"] = p
         self._l().laser_profile = mk_profile(p)
         self._mut("l_profile_swap:" + p["kind"])
+
+    def pre_l_profile_swap_back(self):
+        return bool(self._lpool("profile"))
+
+    def do_l_profile_swap_back(self, k):
+        # a profile object that was replaced earlier is installed again (A, B, A)
+        pool = self._lpool("profile")
+        obj, cfg = pool.pop(k % len(pool))
+        pool.append((self._l().laser_profile, copy.deepcopy(self.rec["laser"]["profile"])))
+        self.rec["laser"]["profile"] = cfg
+        self._l().laser_profile = obj
+        self._mut("l_profile_swap_back")
+
+    def pre_l_spectrum_swap_back(self):
+        return bool(self._lpool("spectrum"))
+
+    def do_l_spectrum_swap_back(self, k):
+        pool = self._lpool("spectrum")
+        obj, cfg = pool.pop(k % len(pool))
+        pool.append((self._l().laser_spectrum, copy.deepcopy(self.rec["laser"]["spectrum"])))
+        self.rec["laser"]["spectrum"] = cfg
+        self._l().laser_spectrum = obj
+        self._mut("l_spectrum_swap_back")
 
     def do_l_profile_set(self, a):
         key, idx = a
@@ -1030,6 +1061,8 @@ class LaserScene(SceneBase):
         self._mut("l_polarization")
 
     def do_l_spectrum_swap(self, s):
+        self._lpool("spectrum").append((self._l().laser_spectrum, copy.deepcopy(self.rec["laser"]["spectrum"])))
+        del self._lpool("spectrum")[:-3]
         self.rec["laser"]["spectrum"] = s
         self._l().laser_spectrum = mk_spectrum(s)
         self._mut("l_spectrum_swap:" + s["kind"])
@@ -1103,6 +1136,8 @@ class LaserScene(SceneBase):
     OPS = dict(SceneBase.BASE_OPS)
     OPS.update({
         "l_profile_swap": _lprofile,
+        "l_profile_swap_back": lambda: st.integers(0, 2),
+        "l_spectrum_swap_back": lambda: st.integers(0, 2),
         "l_profile_set": lambda: st.tuples(st.sampled_from(sorted(_PROFILE_SETTERS)), st.integers(0, 5)),
         "l_polarization": lambda: _pol,
         "l_spectrum_swap": _lspectrum,
